@@ -264,13 +264,13 @@ func genListOp[T comparable](r *core.R, d *Dom[T], n int, maxN int) listOp[T] {
 	}
 	switch r.Pick(w...) {
 	case 0:
-		return listOp[T]{kind: "Add", vs: d.Vals(r, varCount(r))}
+		return listOp[T]{kind: "Add", vs: d.Vals(r, varCountBig(r))}
 	case 1:
 		return listOp[T]{kind: "Append", vs: d.Vals(r, varCount(r))}
 	case 2:
-		return listOp[T]{kind: "Prepend", vs: d.Vals(r, varCount(r))}
+		return listOp[T]{kind: "Prepend", vs: d.Vals(r, varCountBig(r))}
 	case 3:
-		return listOp[T]{kind: "Insert", i: structIndex(r, n), vs: d.Vals(r, varCount(r))}
+		return listOp[T]{kind: "Insert", i: structIndex(r, n), vs: d.Vals(r, varCountBig(r))}
 	case 4:
 		return listOp[T]{kind: "Remove", i: structIndex(r, n)}
 	case 5:
